@@ -899,6 +899,7 @@ class AwareASTNode(DataClassSerializeMixin):
                     new_was_attached = False
 
                 # Change the ID of the new node to the old one, and store the old one in original_id
+                new_prev_id, new_prev_original_id = new.id, new.original_id
                 object.__setattr__(new, "original_id", new.id)
                 object.__setattr__(new, "id", self.id)
 
@@ -906,8 +907,10 @@ class AwareASTNode(DataClassSerializeMixin):
                 try:
                     new._attach("replace")
                 except Exception as e:
-                    # If we failed to the attach new node, re-attach the old one
-                    # and raise the exception
+                    # If we failed to the attach new node, give it back its own ID,
+                    # re-attach the old one and raise the exception
+                    object.__setattr__(new, "id", new_prev_id)
+                    object.__setattr__(new, "original_id", new_prev_original_id)
 
                     assert cur_parent_field is not None
                     self._set_parent(cur_parent, cur_parent_field, cur_parent_index)
@@ -947,6 +950,7 @@ class AwareASTNode(DataClassSerializeMixin):
                 new_was_attached = False
 
             # Change the ID of the new node to the old one, and store the old one in original_id
+            new_prev_id, new_prev_original_id = new.id, new.original_id
             object.__setattr__(new, "original_id", new.id)
             object.__setattr__(new, "id", self.id)
 
@@ -954,8 +958,11 @@ class AwareASTNode(DataClassSerializeMixin):
             try:
                 new._attach("replace")
             except Exception as e:
-                # If we failed to the attach new node, re-attach the old one
-                # and raise the exception
+                # If we failed to the attach new node, give it back its own ID,
+                # re-attach the old one and raise the exception
+                object.__setattr__(new, "id", new_prev_id)
+                object.__setattr__(new, "original_id", new_prev_original_id)
+
                 if was_attached:
                     self._attach("replace")
 
